@@ -5,7 +5,12 @@
     length-delimited elements (incl. slices of structs, of strings, of packed
     slices), maps (entries merged by key, in wire order), the JSON-any codecs,
     and - as struct
-    fields - the protobuf repeated-field form of slices and maps.  PARTIAL:
+    fields - the protobuf repeated-field form of slices and maps.  Recursive
+    types are covered through their finite unfoldings: the fragment admits the
+    unfolding limit [CBottom] (no well-typed value is written under it), the
+    model of CodecForType yields exactly these unfoldings, and every finite
+    value is well-typed for every unfolding deep enough to hold it
+    (C01_recursive*, shown for a list/tree type of unbounded depth and width).  PARTIAL:
     outside the fragment are nil / null.* / BQ elements of scalar slices
     (findings D24), the BigQuery codec and the
     repeated forms anywhere but directly in a struct field ([top_ok]: finding
@@ -14,7 +19,7 @@
     holds exactly zero, unencoded fields read back zero, map keys are distinct,
     an empty map in the repeated form reads back nil).  Known findings: D12,
     D24, D27. *)
-From Plenc Require Import Base Varint Wire JsonAny Codec SizeProofs Registry CorrCore RoundTripBase RoundTrip RoundTripZero.
+From Plenc Require Import Base Varint Wire JsonAny Codec SizeProofs Registry CorrCore RoundTripBase RoundTrip RoundTripZero RecursiveRT.
 Open Scope N_scope.
 
 (** decoding the encoding of [v] into a fresh target yields [v] and consumes
@@ -46,6 +51,36 @@ Print Assumptions C01_dec_enc_partial.
 Theorem C01_field_roundtrip_partial : forall c, rt_ok c -> FRT c.
 Proof. intros c H. apply (proj2 (roundtrip_gen c H)). Qed.
 Print Assumptions C01_field_roundtrip_partial.
+
+(** recursive types.  For
+      type Node struct { V int `plenc:"1"`; Next *Node `plenc:"2"`; Kids []Node `plenc:"3"` }
+    the model of CodecForType yields the unfolding [node_codec k] for every k ... *)
+Theorem C01_recursive_codec : forall k,
+  codec_for plain_cfg node_env (2 * k + 2) (TStruct 0) [] = Ok (node_codec k).
+Proof. exact node_codec_for. Qed.
+Print Assumptions C01_recursive_codec.
+
+(** ... every finite value of the type (a tree of any depth and width, with
+    int64 payloads) is well-typed and canonical for every unfolding at least as
+    deep as the value ... *)
+Theorem C01_recursive_values : forall k t, (depth t <= S k)%nat -> tree_ok t ->
+  rt_ok (node_codec k) /\ wfv (node_codec k) (tree_val t) /\ canon (node_codec k) (tree_val t).
+Proof. intros k t Hd Hok. split; [apply node_rt_ok|split; [apply tree_wfv; assumption|apply tree_canon; exact Hd]]. Qed.
+Print Assumptions C01_recursive_values.
+
+(** ... and so comes back exactly (the [fits] hypothesis only says that the
+    encoding is shorter than 2^64 bytes) *)
+Theorem C01_recursive_roundtrip : forall k t,
+  (depth t <= S k)%nat -> tree_ok t -> fits (node_codec k) (tree_val t) ->
+  unmarshal (node_codec k) (marshal (node_codec k) [] (tree_val t)) (zero (node_codec k)) = Ok (tree_val t).
+Proof. exact recursive_roundtrip. Qed.
+Print Assumptions C01_recursive_roundtrip.
+
+Example C01_recursive_ex :
+  let t := T 5 (Some (T (-1) None [T 0 None []; T 7 (Some (T 8 None [])) []])) [T 0 None []] in
+  (depth t <= S 3)%nat /\ tree_ok t /\
+  unmarshal (node_codec 3) (marshal (node_codec 3) [] (tree_val t)) (zero (node_codec 3)) = Ok (tree_val t).
+Proof. cbv zeta. split; [cbn; lia|]. split; [cbn; unfold int_range; cbn; intuition lia|vm_compute; reflexivity]. Qed.
 
 (** non-vacuity: a nested value with pointers, times, slices of structs, a
     map, and a slice and a map in the protobuf repeated form *)
